@@ -3,14 +3,14 @@ import Model.Basic
 explodes to itself — for every byte string, valid UTF-8 or not. -/
 namespace GoModel
 
-theorem utf8Width_pos (s : Str) (h : s ≠ []) : 0 < utf8Width s := by
+theorem utf8Width_pos_ne (s : Str) (h : s ≠ []) : 0 < utf8Width s := by
   unfold utf8Width
   split
   · exact absurd rfl h
   · omega
   all_goals (repeat' split) <;> omega
 
-theorem utf8Width_le (s : Str) : utf8Width s ≤ s.length := by
+theorem utf8Width_le_len (s : Str) : utf8Width s ≤ s.length := by
   unfold utf8Width
   split
   · simp
@@ -43,7 +43,7 @@ theorem explodeF_flatten (n : Nat) (s : Str) (h : s.length ≤ n) : (explodeF n 
     | nil => simp [explodeF]
     | cons c r =>
       simp only [explodeF, List.flatten_cons]
-      have hp := utf8Width_pos (c :: r) (by simp)
+      have hp := utf8Width_pos_ne (c :: r) (by simp)
       have hlen : ((c :: r).drop (utf8Width (c :: r))).length ≤ n := by
         rw [List.length_drop]; simp only [List.length_cons] at h ⊢; omega
       rw [ih _ hlen]
@@ -64,8 +64,8 @@ theorem explodeF_piece (n : Nat) (s l : Str) (h : l ∈ explodeF n s) :
       simp only [explodeF, List.mem_cons] at h
       rcases h with h | h
       · subst h
-        have hp := utf8Width_pos (c :: r) (by simp)
-        have hl := utf8Width_le (c :: r)
+        have hp := utf8Width_pos_ne (c :: r) (by simp)
+        have hl := utf8Width_le_len (c :: r)
         refine ⟨?_, ?_⟩
         · intro e
           have := congrArg List.length e
